@@ -54,7 +54,7 @@ def match_types(writer_type, reader_type, named_schemas):
             return match_schemas(writer_type, reader_type, named_schemas)
         except SchemaResolutionError:
             return False
-    if writer_type == reader_type:
+    if writer_type == reader_type and writer_type in AVRO_TYPES:
         return True
     # promotion cases
     elif writer_type == "int" and reader_type in ["long", "float", "double"]:
@@ -67,11 +67,12 @@ def match_types(writer_type, reader_type, named_schemas):
         return True
     elif writer_type == "bytes" and reader_type == "string":
         return True
+    # names of named types stand for their definitions, also when they are equal
     writer_schema = named_schemas["writer"].get(writer_type)
     reader_schema = named_schemas["reader"].get(reader_type)
     if writer_schema is not None and reader_schema is not None:
         return match_types(writer_schema, reader_schema, named_schemas)
-    return False
+    return writer_type == reader_type
 
 
 def _reader_branches(w_schema, r_union, named_schemas):
